@@ -515,6 +515,26 @@ def limits_wiring(prog, chk):
             f'<config {k}="..."> assigns TransformConfig::{f}',
             f'<config {k}="..."> assigns {got} (expected [{f}])',
         )
+    # the value assigned is the parsed attribute itself: no clamping / min / max / arithmetic on a limit the author sets
+    cb = prog.body(ce)
+    for k, f in want.items():
+        asg = R.field_assigns(cb, ("." + f,))
+        good = bool(asg)
+        why = "no assignment found"
+        for (bb, i, st) in asg:
+            rv = st["rv"]
+            o = R.origin(cb, rv.get("op"), carriers={}) if rv["k"] == "use" else ("rv", rv)
+            # through `?`: the Continue payload of branch(parse(..))
+            src = None
+            if o[0] == "call" and "fn" in o[2]:
+                src = Callee(o[2]["fn"])
+                if src.decl_path.endswith("Try::branch") and o[2]["args"]:
+                    o2 = R.origin(cb, o[2]["args"][0], carriers={})
+                    src = Callee(o2[2]["fn"]) if o2[0] == "call" and "fn" in o2[2] else None
+            if not (src is not None and src.path.split("::")[-1] in ("parse", "from_str")):
+                good = False
+                why = f"assigned from {src.path if src is not None else o[0]}"
+        chk.ob(good, "A15.config-wiring", f"ConfigElement:{k}:direct", cb.where(), f"TransformConfig::{f} is set to the parsed attribute value itself", f"<config {k}=..> does not store the parsed value itself ({why}): a document within the limit it configures can be rejected (or one beyond it accepted)")
     # set_config stores the whole config
     sc = prog.body("svgdx::context::TransformerContext::set_config")
     stores = [s for (b, i, s) in R.field_assigns(sc, (".config",))]
